@@ -64,9 +64,15 @@ def runImport (inp out : Json) : Json :=
     match res with
     | none => [{ prop := "C13", code := "import_panics", detail := (jget out "result").compress }]
     | some r =>
-      if !valid && !(r.2.isEmpty && r.1.messages.length == 1) then
+      (if !valid && !(r.2.isEmpty && r.1.messages.length == 1) then
         [{ prop := "C13", code := "invalid_json_accepted", detail := s!"{bytes.quote} gives {showInvoked r}" }]
-      else []
+      else []) ++
+      -- soundness of the decoder model: a text it accepts is held by the real ActionImport with the same content
+      (match (if bytes.length > 30000 then none else parseExport bytes.toList) with
+       | some d =>
+         if d.messages == r.1.messages && d.usage == r.1.usage && (d.values.getD []).length == r.2.length then []
+         else [{ prop := "C13", code := "decoder_model_accepts_more", detail := s!"{bytes.quote}: model holds {(d.values.getD []).length} values, real {showInvoked r}" }]
+       | none => [])
   Json.mkObj [("same", Json.bool true), ("diff", Json.str ""), ("fails", Json.arr (fails.map afailJson).toArray),
               ("feat", Json.mkObj [("valid", Json.bool valid), ("goValid", Json.bool (jbool out "goValid"))])]
 
